@@ -48,22 +48,28 @@ func (fc *fileCache) Add(key Key, content io.Reader) (err error) {
 	if err != nil {
 		return
 	}
+	verifCrashPoint("created")
 	defer func() {
 		file.Close()
 		if err != nil {
 			_ = os.Remove(file.Name())
 		}
 	}()
+	content = verifWrapReader(content)
 	if _, err = io.Copy(file, content); err != nil {
 		return
 	}
+	verifCrashPoint("copied")
 	if err = file.Sync(); err != nil {
 		return
 	}
+	verifCrashPoint("synced")
 	if err = file.Close(); err != nil {
 		return
 	}
+	verifCrashPoint("closed")
 	err = os.Rename(file.Name(), path)
+	verifCrashPoint("renamed")
 	return
 }
 
